@@ -94,7 +94,10 @@ def _bytes_declare(text, enc, cookie, nls=("lf", "crlf", "cr")):
     for nl in [kernel.NL.get(x, x) for x in nls]:
         conv = text.replace("\n", nl)
         try:
-            head = conv.encode(enc).decode("latin-1")
+            raw = conv.encode(enc)
+            if raw.decode(enc) != conv:
+                return False  # the codec itself does not round-trip this text (CPython's hz does that for some '~' runs)
+            head = raw.decode("latin-1")
         except (UnicodeError, LookupError):
             return False
         seen_in_text = declared_encoding(conv)
@@ -333,6 +336,18 @@ class ByteStoreEngine(Engine):
                 else:
                     interesting = False
                     data = None
+
+                if op in ("edit", "file_write") and data is not None:
+                    # precondition (contents round-trip through the codec they declare, under the
+                    # convention the file has *now*): some codecs do not for every text
+                    conv = st["text"].replace("\n", newline_of(data) if (b"\n" in data or b"\r" in data) else "\n")
+                    try:
+                        e2 = declared_encoding(conv) or "utf-8"
+                        if conv.encode(e2).decode(e2) != conv:
+                            raise UnicodeError
+                    except (UnicodeError, LookupError):
+                        out.stats["skipped_codec_does_not_roundtrip"] += 1
+                        continue
 
                 def fobj():
                     if st.get("held"):
